@@ -86,7 +86,8 @@ def sub_multiset(xs, ys):
 
 
 def witness_concurrent_rerun(out, findings):
-    """Model-free lock-step witness for the fault clause of C15 ("cache faults while dependency outputs are being loaded"):
+    """Model-free lock-step witness for the fault clause of C15 ("cache faults while dependency outputs are being loaded"; the
+    defect it demonstrated, C15-F1, is repaired: LoadDependencyOutputs works on a dependency under a per-dependency lock):
     dependency //:x (slow, writes its output in two steps) is a cache hit whose blob is lost; its dependants d1 and d2 were edited
     and have to run; d2 also waits for a second dependency y, so it becomes ready a little after d1.  Under `all` x is re-made
     once at its own node.  Under `minimal` each dependant finds x unrestorable: if BOTH re-make it, the two runs of x's command
@@ -231,8 +232,9 @@ def witness_rerun_fails(out):
 
 def depload_stage(out, tier):
     """Concurrency of dependency loading (Build.v is sequential): k dependants of one cache-hit dependency race on loading its
-    outputs.  Deterministic schedules on the real Executor/Registry (harness/go/depload) against coq/theories/DepLoad.v, see
-    tools/c15_depload.py.  Runs first: its violations carry a failing schedule and are listed first."""
+    outputs, also while some of its blobs are lost and it has to be re-made (exactly once).  Deterministic schedules on the real
+    Executor/Registry (harness/go/depload) against coq/theories/DepLoad.v, see tools/c15_depload.py.  Runs first: its violations
+    carry a failing schedule and are listed first."""
     return c15_depload.stage(out, tier)
 
 
@@ -288,9 +290,9 @@ def run(out, tier):
         # ... and mode all HEALS a fault in the first build that selects the target (it restores every selected output), mode minimal
         # only in the build in which an executing dependant needs it -- possibly several builds later.  After a fault the commands
         # are therefore compared cumulatively: what minimal has executed since the fault is a sub-multiset of what all has executed
-        # since the fault (per build this is the old rule whenever both heal in the same build).  Multiplicities are not judged after a
-        # fault: two dependants that need the same unrestorable dependency at the same time may both re-make it (C03's "at most once"
-        # is stated "absent cache faults"; C15 speaks of the same SET of commands)
+        # since the fault (per build this is the old rule whenever both heal in the same build).  Multiplicities ARE judged: since the
+        # repair of C15-F1 (per-dependency lock in LoadDependencyOutputs) two dependants that need the same unrestorable dependency
+        # at the same time re-make it once.  Before that repair both re-made it: commands equal as sets only = finding C15-F1
         cum_a, cum_m = [], []
         for bi, (a, b) in enumerate(zip(ha.builds, hm.builds)):
             evals += 1
@@ -300,9 +302,11 @@ def run(out, tier):
             if (a["rc"] == 0) != (b["rc"] == 0):
                 hc.decide(out, "C15", findings, hm, "build %d: mode all exits %s, mode minimal exits %s (%s)" % (bi, a["rc"], b["rc"], b["stderr"][-200:]),
                           predicted, GUARDS)
-            elif bi < len(faulted) and faulted[bi] and (sub_multiset(b["starts"], a["starts"]) or sub_multiset(cum_m, cum_a)
-                                                           or set(cum_m) <= set(cum_a)):
+            elif bi < len(faulted) and faulted[bi] and (sub_multiset(b["starts"], a["starts"]) or sub_multiset(cum_m, cum_a)):
                 pass
+            elif bi < len(faulted) and faulted[bi] and set(cum_m) <= set(cum_a) and "concurrent-dependency-rerun" in findings:
+                out.known(findings["concurrent-dependency-rerun"]["id"], "build %d (after a cache fault) executes %s under all but %s under minimal: a "
+                          "dependency was re-made by several dependants" % (bi, sorted(a["starts"]), sorted(b["starts"])))
             elif sorted(a["starts"]) != sorted(b["starts"]):
                 hc.decide(out, "C15", findings, hm, "build %d executes %s under all but %s under minimal" % (bi, sorted(a["starts"]), sorted(b["starts"])),
                           predicted, GUARDS)
